@@ -424,7 +424,7 @@ def oracle(seed, tier):
         vg = valgrind_sample(docs, budget(tier, 6, 60))
         viol += vg.pop("violations")
     nontriv = sum(v for k, v in stats.items() if not k.startswith("valid:"))
-    return {"violations": viol[:30], "summary": {"cases": len(docs), "violations": len(viol), "nontrivial": nontriv, "outcomes": stats, "valgrind": vg,
+    return {"violations": trim_violations(viol, 30), "summary": {"cases": len(docs), "violations": len(viol), "nontrivial": nontriv, "outcomes": stats, "valgrind": vg,
                                                  "schema_labels": {"invalid": sum(1 for l in labels if l.startswith("invalid")), "valid": sum(1 for l in labels if l == "valid")}},
             "samples": samples}
 
